@@ -63,6 +63,8 @@ def build_calls(ctx: Ctx, n_docs: int):
         texts.append(docprop.render_case(d, {"k": "len", "seed": i, "level": 0.7})[0])
     inst = [instance(s, k, e, c) for s, k, e, c in [("D", "al", ["ZZ", "AA", "MM"], 50), ("DE", "a", ["B1", "A1"], 0), ("ACTIV", "alp", [], "\"x\""), ("A", "b", ["Q"], 5),
                                                      ("ACTIVE", "alpha", ["Z9", "Z1", "Z5", "Z3"], 11), ("nope", "zz", ["X", "Y"], -1)]]
+    # a META field holding a holographic pattern: its validation error embeds the value's repr (must be address-free)
+    inst.append('===P===\nMETA:\n  TYPE::T\n  STATUS::[false∧CONST[X]]\n  VERSION::["1.0"∧REQ∧ENUM[A,B]→§SELF]\n===END===\n')
     calls = []
     profiles = ["STRICT", "STANDARD", "LENIENT", "ULTRA"]
     for i, t in enumerate(texts + inst * 2):
